@@ -64,6 +64,7 @@ DEFAULT_PROFILE = {
     "multi_value": 0.3,  # add a second value to an existing extra attribute
     "fmt": "json",
     "mention": True,
+    "steer_f11b": False,  # add_bundle identifiers only through the document's namespace objects
     "mutate_derived": False,  # derived documents are targets of ordinary operations too
 }
 
@@ -586,7 +587,17 @@ class Gen(object):
         bh = rng.choice(cands)
         ident = None
         if rng.random() < 0.6:
-            ident = self.name_spec(dh)
+            if self.p.get("steer_f11b"):
+                # steer around known finding F11b: name the bundle through a namespace
+                # object of the document, so the printed identifier means the same in
+                # the document's and in the bundle's scope
+                ident = self.name_spec(dh, {"nsobj": 1})
+                if ident[0] != "nsobj" or ident[1] != dh:
+                    ident = None
+            else:
+                ident = self.name_spec(dh)
+        if ident is None and self.p.get("steer_f11b") and bh not in self.free:
+            return None
         if bh in self.free and self.parent.get(bh) is None:
             # attaching links the parent afterwards
             self.free.remove(bh)
